@@ -1,5 +1,5 @@
 import os, subprocess, concurrent.futures
-BUILD = os.path.join(os.path.dirname(os.path.dirname(os.path.dirname(os.path.abspath(__file__)))), "build")
+BUILD = os.environ.get("VERIF_BUILD") or os.path.join(os.path.dirname(os.path.dirname(os.path.dirname(os.path.abspath(__file__)))), "build")
 
 def crc_step_exhaustive(tmp, tier, seed, goenv):
     """C06: compare the whole one-byte CRC transition function (2^16 x 2^8)"""
